@@ -162,6 +162,25 @@ def make_case(seed, tier):
             {'at_step': k + rng.randint(0, 5), 'kind': 'restart',
              'node': 'engine0'}]
         case['config']['engines'] = 2
+    # a task that is failed by its timeout is rerun (with and without
+    # reset) once the run has drained: the policies apply to the new run of
+    # the task as they did to the first one
+    slow = [nm for nm in names if policies[nm].get('timeout') and
+            durations.get(nm, 0) > policies[nm]['timeout'] + 3 and
+            any(t['name'] == nm and t.get('join') is None and
+                not t.get('on_error') and not t.get('on_complete')
+                for t in tasks)]
+    if slow and not case.get('faults') and not wf.get('task_defaults') \
+            and rng.random() < 0.6:
+        reset = rng.random() < 0.5
+        case['ops'] = list(case.get('ops') or []) + [
+            {'op': 'rerun', 'reset': reset,
+             # the REST API only accepts reset=false for with-items tasks;
+             # the engine entry point (RPC) takes it for any task
+             'via': 'rest' if reset else 'engine',
+             'target': {'state': 'ERROR', 'name': rng.choice(slow)},
+             'at_step': 9000}]
+        case['rerun_timeout'] = True
     case['settle'] = 150
     case['max_steps'] = 12000
     return case
@@ -236,6 +255,11 @@ def evaluate(case, res):
     by_name = {}
     for t in snap['task'].values():
         by_name.setdefault(t['name'], []).append(t)
+    reruns = {}
+    for o in res.ops_log:
+        if o['op']['op'] == 'rerun' and o['result'] and \
+                o['result'][0] == 'ok' and o.get('target_id'):
+            reruns[o['target_id']] = reruns.get(o['target_id'], 0) + 1
     for t in snap['task'].values():
         p = pols.get(t['name'], {})
         al = sorted(acts.get(t['id'], []),
@@ -274,7 +298,7 @@ def evaluate(case, res):
                         'task %s is %s but its last attempt is %s' % (
                             lab.any(t['id']), t['state'], last['state']),
                         sig))
-        elif len(al) > 1 and not crashed:
+        elif len(al) > 1 + reruns.get(t['id'], 0) and not crashed:
             out.append(('C08.attempts',
                         'task %s without retry policy has %d action '
                         'executions' % (lab.any(t['id']), len(al)), sig))
@@ -409,6 +433,9 @@ def probes(case, res):
     p['retried_tasks'] = sum(
         1 for t in snap['task'].values()
         if (t['runtime_context'] or {}).get('retry_task_policy'))
+    p['rerun_after_timeout'] = sum(
+        1 for o in res.ops_log if o['op']['op'] == 'rerun' and o['result']
+        and o['result'][0] == 'ok')
     p['crash_restart'] = int(any(f['kind'] == 'crash'
                                  for f in case.get('faults') or []))
     p['ref_exact'] = int(bool(res.extra.get('ref_exact')))
